@@ -861,6 +861,12 @@ func (b *bsym) callInstr(fr *bframe, cc *ssa.CallCommon) interface{} {
 
 func (b *bsym) builtin(name string, args []interface{}, cc *ssa.CallCommon) interface{} {
 	switch name {
+	case "ssa:wrapnilchk":
+		// wrapnilchk(ptr, recvType, methodName) returns ptr, panicking if it is nil
+		if isNilVal(args[0]) {
+			panic(bsymPanic{"value method called using nil pointer"})
+		}
+		return args[0]
 	case "len":
 		switch x := args[0].(type) {
 		case *bslice:
